@@ -2,6 +2,8 @@ import TR.Lemmas.Reconnect
 import TR.Lemmas.ReconnectHistory
 import TR.Lemmas.ReconnectChain
 import TR.Lemmas.ReconnectEntry
+import TR.Lemmas.ReconnectLog
+import TR.Lemmas.ReconnectTrace
 /-!
 # C16 — reconnect retries only connection failures, a bounded number of times
 
@@ -463,6 +465,245 @@ theorem state_is_function_of_history_per_layer_value (cfg : Cfg) (ops : List (Na
   multi_inv (P := fun s => HistOK cfg s.sh) cfg (fun _ _ _ h => h) (by simp [HistOK, init, linkUp])
     (fun _ op h => stepS_hist op h) ops j
 
+/-! ### the property over the timestamped event log
+
+`(run cfg ops).sh.tlog : List (Nat × REv)` is the event log with the instant of every line: what the driver prints
+(`t=<instant> <event>`) and the correspondence check compares, line by line, with the log of the real layer. The
+theorems below restate the clauses over that log alone — no ghost variable (`st.calls`, `CallRec.t`, `st.result`,
+`writer`) occurs in them. `isMine c l`: line `l` belongs to request `c` (`inner_call c _`, `inner_done c _ _`,
+`inner_drop c _`, `result c _`); `callsInT c T`: the number of `inner_call c _` lines in `T`. Every theorem speaks about
+an arbitrary split `tlog = pre ++ line :: post`, i.e. about every line and every prefix of every reachable log. -/
+
+/-- the timestamped log is the event log (same events, same order) … -/
+theorem tlog_is_the_log (cfg : Cfg) (ops : List Op) : (run cfg ops).sh.tlog.map Prod.snd = (run cfg ops).sh.log :=
+  (logInv_reachable cfg ops).same
+
+/-- … and its instants are the `t=` of the printed lines: an operation appends its new events stamped with the clock of
+the state it leads to (for any state). -/
+theorem tlog_is_what_the_driver_prints (cfg : Cfg) (s : State) (op : Op) :
+    (stepS cfg s op).sh.tlog =
+      s.sh.tlog ++ ((stepS cfg s op).sh.log.drop s.sh.log.length).map (fun e => ((stepS cfg s op).sh.now, e)) :=
+  stepS_tlog cfg s op
+
+/-- instants never decrease along the log, and no line is stamped later than the clock reads -/
+theorem log_instants_never_decrease (cfg : Cfg) (ops : List Op) (pre post : List (Nat × REv)) (t : Nat) (e : REv)
+    (hlog : (run cfg ops).sh.tlog = pre ++ (t, e) :: post) :
+    (∀ l ∈ pre, l.1 ≤ t) ∧ t ≤ (run cfg ops).sh.now := by
+  have h := logInv_reachable cfg ops
+  exact ⟨(h.g.wft pre t e post hlog).1, h.g.stamped (t, e) (by rw [hlog]; simp)⟩
+
+/-- **The ghost list `calls` IS the list of the request's `inner_call` lines** — same instants, same serials, same order
+(oldest first). Everything the ghost-level theorems above say about `st.calls[i].t` and `st.calls[i].k` is said about
+the `inner_call` lines of the log. -/
+theorem calls_are_the_call_lines (cfg : Cfg) (ops : List Op) (c : Nat) (st : Caller)
+    (h : lookup (run cfg ops).callers c = some st) :
+    (run cfg ops).sh.tlog.filter (isCallLine c) = st.calls.reverse.map fun r => (r.t, REv.call c r.k) :=
+  ((logInv_reachable cfg ops).tied c st h).lines
+
+/-- … and a request nobody made has no line at all. -/
+theorem unknown_request_has_no_line (cfg : Cfg) (ops : List Op) (c : Nat) (h : lookup (run cfg ops).callers c = none) :
+    ∀ l ∈ (run cfg ops).sh.tlog, isMine c l = false :=
+  (logInv_reachable cfg ops).known c h
+
+/-- **Clause "bounded attempts" over the log, every prefix**: no prefix of a reachable log has more than
+`max_attempts + 1` lines `inner_call c _`, for any request `c`. -/
+theorem calls_bounded_log (cfg : Cfg) (ops : List Op) (c m : Nat) (hm : cfg.maxAttempts = some m)
+    (pre post : List (Nat × REv)) (hlog : (run cfg ops).sh.tlog = pre ++ post) : callsInT c pre ≤ m + 1 := by
+  have h1 := calls_bounded_trace cfg ops c m hm
+  rw [← tlog_is_the_log, callsInT_map, hlog] at h1
+  simp only [callsInT, List.countP_append] at h1 ⊢
+  omega
+
+/-- policy `none` / `retry_on_reconnect = false`: at most ONE `inner_call c _` line per request -/
+theorem single_call_without_retry_log (cfg : Cfg) (ops : List Op) (c : Nat)
+    (hcfg : cfg.retry = false ∨ cfg.policy.has = false) : callsInT c (run cfg ops).sh.tlog ≤ 1 := by
+  rw [← callsInT_map, tlog_is_the_log, logOK_reachable cfg ops c]
+  cases h : lookup (run cfg ops).callers c with
+  | none => simp
+  | some st => exact single_call_without_retry cfg ops c st h hcfg
+
+/-- **Clauses "only connection failures are retried" and "the policy's delay is waited", over the log.** Every
+`inner_call c k` line at instant `t` is either the first `inner_call` line of request `c`, or the lines before it end —
+as far as request `c` is concerned — with
+
+  `inner_call c k0` at `t0`, … (nothing of `c`) …, `inner_done c k0 err<kd>` at `t1 ≥ t0`, … (nothing of `c`) …
+
+where the predicate accepts `kd` (`cfg.reconn kd`: the retry is preceded by a `done` line of the SAME request, for its
+PREVIOUS call `k0`, whose error the predicate classifies as a connection failure), `retry_on_reconnect` is on, attempts
+are left (`n ≤ max_attempts` for `n` = the number of `inner_call c _` lines so far), and **`t1 + ⌈d⌉ ≤ t` for a delay `d`
+that the policy allows for `delay_for_attempt n`** (`⌈·⌉`: a tokio sleep ends at the first millisecond tick; for fixed /
+exponential / custom policies `d` IS the policy's value: `retry_waits_the_policy_delay`). Consecutive `inner_call` lines
+of one request are therefore at least `delay_for_attempt n` apart (`t0 + ⌈d⌉ ≤ t`). -/
+theorem retry_follows_accepted_failure (cfg : Cfg) (ops : List Op) (c k t : Nat) (pre post : List (Nat × REv))
+    (hlog : (run cfg ops).sh.tlog = pre ++ (t, .call c k) :: post) :
+    callsInT c pre = 0 ∨
+    ∃ p1 t0 k0 mid t1 kd mid2 d,
+      pre = p1 ++ (t0, .call c k0) :: (mid ++ (t1, .done c k0 (.err kd)) :: mid2) ∧
+      (∀ y ∈ mid, isMine c y = false) ∧ (∀ y ∈ mid2, isMine c y = false) ∧
+      cfg.reconn kd = true ∧ cfg.retry = true ∧ exceeded cfg (callsInT c pre) = false ∧
+      cfg.policy.allowed (callsInT c pre) d = true ∧ t0 ≤ t1 ∧ t1 + ceilMs d ≤ t :=
+  retry_structure (logInv_reachable cfg ops).g.wft hlog
+
+/-- the same in one line for a fixed, exponential or custom policy: retry number `n` (the `n+1`-th `inner_call` line of
+the request) comes no earlier than `delay_for_attempt(n)` after the `inner_done` line of the failure it follows, hence
+no earlier than that after the previous `inner_call` line -/
+theorem retry_waits_the_policy_delay (cfg : Cfg) (hdet : cfg.policy.deterministic = true) (ops : List Op) (c k t : Nat)
+    (pre post : List (Nat × REv)) (hlog : (run cfg ops).sh.tlog = pre ++ (t, .call c k) :: post)
+    (hretry : 0 < callsInT c pre) :
+    ∃ t0 k0 t1 kd, (t0, REv.call c k0) ∈ pre ∧ (t1, REv.done c k0 (.err kd)) ∈ pre ∧ cfg.reconn kd = true ∧
+      t0 ≤ t1 ∧ t1 + ceilMs (cfg.policy.delayOf (callsInT c pre)) ≤ t := by
+  rcases retry_follows_accepted_failure cfg ops c k t pre post hlog with h0 | ⟨p1, t0, k0, mid, t1, kd, mid2, d, hp, _, _, hk, _, _, hal, h01, h1t⟩
+  · omega
+  · refine ⟨t0, k0, t1, kd, by rw [hp]; simp, by rw [hp]; simp, hk, h01, ?_⟩
+    rw [← (allowed_deterministic hdet).1 hal]; exact h1t
+
+/-- **… and exactly the policy's delay, when the request is polled whenever its back-off timer fires.** Hypotheses,
+both on the operation list alone: `PolledWhenWoken cfg c ops` — the clock is never advanced past the end of a back-off of
+request `c` (for every split `ops = pre ++ adv ms :: post`: if `c` sleeps until `wake` after `pre`, then `now + ms ≤ wake`,
+`polledWhenWoken_iff`; i.e. the timer fires at its deadline and the woken request is polled before time goes on) — and the
+wrapped service has no recovery time (`Op.inner _ 0` only; with a recovery time the retry is due when the service is
+ready again, `retry_waits_only_for_inner_readiness`). Then every retry of `c` is made at EXACTLY `t1 + ⌈d⌉`, `t1` the
+instant of the `inner_done` line it follows and `d` a delay the policy allows for that attempt. -/
+theorem retry_exactly_after_the_delay (cfg : Cfg) (ops : List Op) (c : Nat) (hd : PolledWhenWoken cfg c ops)
+    (hn : ∀ op ∈ ops, noRecovery op = true) (k t : Nat) (pre post : List (Nat × REv))
+    (hlog : (run cfg ops).sh.tlog = pre ++ (t, .call c k) :: post) (t1 k1 : Nat) (o : Out)
+    (hlast : lastMine c pre = some (t1, .done c k1 o)) :
+    ∃ d, cfg.policy.allowed (callsInT c pre) d = true ∧ t = t1 + ceilMs d :=
+  (prompt_reachable cfg c ops hd hn).exact pre t _ post hlog rfl t1 k1 o hlast
+
+/-- the discipline, spelled out -/
+theorem polled_when_woken_means (cfg : Cfg) (c : Nat) (ops : List Op) :
+    PolledWhenWoken cfg c ops ↔
+      ∀ pre ms post, ops = pre ++ .adv ms :: post → ∀ st wake, lookup (run cfg pre).callers c = some st →
+        st.phase = .sleeping wake → (run cfg pre).sh.now + ms ≤ wake :=
+  polledWhenWoken_iff cfg c ops
+
+/-- an `inner_done c k _` line (and an `inner_drop c k` line) directly follows, among the lines of request `c`, the line
+`inner_call c k` — its own call, not an earlier one -/
+theorem completion_follows_its_call (cfg : Cfg) (ops : List Op) (c k t : Nat) (e : REv) (pre post : List (Nat × REv))
+    (hlog : (run cfg ops).sh.tlog = pre ++ (t, e) :: post) (he : (∃ o, e = .done c k o) ∨ e = .dropped c k) :
+    ∃ p1 t0 mid, pre = p1 ++ (t0, .call c k) :: mid ∧ (∀ y ∈ mid, isMine c y = false) ∧ t0 ≤ t :=
+  end_follows_its_call (logInv_reachable cfg ops).g.wft hlog he
+
+/-- **Clause "returns the first success or an error wrapping the last inner error", over the log.** A `result c r` line
+at instant `t` is justified by the lines `pre` before it (`ResultOK`), `last` being the latest line of request `c` in `pre`
+and `n` the number of its `inner_call` lines:
+* `ok:k` — `last` is `inner_done c k ok`, at the same instant `t`;
+* `panic` — `last` is `inner_done c _ panic`, at `t`;
+* `err:service:inner<kd>:k` — `last` is `inner_done c k err<kd>` at `t`, and the predicate REJECTS `kd`;
+* `err:max_attempts:<n>:inner<kd>:k` — `last` is `inner_done c k err<kd>` at `t`, the predicate accepts `kd`, `n` is the
+  number of `inner_call c _` lines and `n > max_attempts`;
+* `err:conn_failed:inner<kd>:k` — the same with attempts left and policy `None`;
+* `err:no_retry:inner<kd>:k` — `last` is `inner_done c k err<kd>` at `t1`, accepted, attempts left, `retry_on_reconnect` off,
+  and `t1 + ⌈d⌉ ≤ t` for a delay `d` the policy allows (the back-off was waited);
+* the readiness error — the line right before it is `ready_err` at `t`, and a retry would have been justified at `t`
+  (`last` an accepted failure, attempts left, back-off over);
+* `notready` — request `c` has no line before it.
+In every case the wrapped `(kind, serial)` is that of the LAST `inner_done` line of the request. -/
+theorem result_line_wraps_last_completion (cfg : Cfg) (ops : List Op) (c t : Nat) (r : RRes)
+    (pre post : List (Nat × REv)) (hlog : (run cfg ops).sh.tlog = pre ++ (t, .result c r) :: post) :
+    ResultOK cfg c pre t r :=
+  ((logInv_reachable cfg ops).g.wft pre t _ post hlog).2
+
+/-- **Nothing of request `c` follows its `result` line** (nor its `inner_drop` line): no further call, no completion,
+no second result — one result per request, and it is final. -/
+theorem nothing_follows_the_result (cfg : Cfg) (ops : List Op) (c t : Nat) (e : REv) (pre post : List (Nat × REv))
+    (hlog : (run cfg ops).sh.tlog = pre ++ (t, e) :: post) (he : (∃ r, e = .result c r) ∨ ∃ k, e = .dropped c k) :
+    ∀ y ∈ post, isMine c y = false :=
+  final_line (logInv_reachable cfg ops).g.wft hlog (by rcases he with ⟨r, rfl⟩ | ⟨k, rfl⟩ <;> simp [isFinal])
+
+/-- **The first success ends the request**: after an `inner_done c k ok` line the only further line of `c` is
+`result c ok:k`, at the same instant — in particular no `inner_call c _` follows a success. -/
+theorem first_success_ends_the_request (cfg : Cfg) (ops : List Op) (c k t : Nat) (pre post : List (Nat × REv))
+    (hlog : (run cfg ops).sh.tlog = pre ++ (t, .done c k .ok) :: post) :
+    ∀ y ∈ post, isMine c y = true → y = (t, .result c (.ok k)) :=
+  after_success (logInv_reachable cfg ops).g.wft hlog
+
+/-! #### the published state at every probe point -/
+
+/-- **The published connection state is `pubOf` of the log** — all three values, in every reachable state: `Disconnected`
+initially; `Reconnecting` from the moment a reconnectable inner error is handled (`inner_done _ _ err<kd>`, `kd` accepted) —
+unless the request gives up in the same turn (`MaxAttemptsExceeded`, or `ConnectionFailed` under policy `None`): then
+`Disconnected`; `Connected` from a `result _ ok:_` (or the `ConnectionFailedNoRetry` that ends a back-off with
+`retry_on_reconnect = false`); nothing else changes it. -/
+theorem published_state_is_function_of_the_log (cfg : Cfg) (ops : List Op) :
+    (run cfg ops).sh.conn = pubOf cfg (run cfg ops).sh.log :=
+  (logInv_reachable cfg ops).pub
+
+/-- **Every `probe state` line reports `pubOf` of the lines before it.** So after `result 1 ok:0, inner_done 2 1 err1`
+(accepted, request 2 backing off) a probe must read `Reconnecting` — `Connected` there contradicts this theorem. -/
+theorem probe_reports_the_state_of_the_log (cfg : Cfg) (ops : List Op) (t : Nat) (x : Conn) (pre post : List (Nat × REv))
+    (hlog : (run cfg ops).sh.tlog = pre ++ (t, .probe x) :: post) : x = pubOf cfg (pre.map Prod.snd) :=
+  ((logInv_reachable cfg ops).g.wft pre t _ post hlog).2
+
+/-- **Not connected while a reconnectable failure is being handled, without the ghost `writer`**: if the latest line of
+the log that changes the published state at all (`changesPub`: an accepted `inner_done … err`, a success / no-retry result,
+a give-up result) is an accepted failure `inner_done c k err<kd>` — i.e. request `c` handled it and neither `c` nor any
+other request has succeeded or given up since — the published state is `Reconnecting`. Any number of requests, any
+interleaving; the lines after it may be retries being issued, completions of other calls with rejected errors, panics,
+cancellations, probes, readiness errors. -/
+theorem reconnecting_while_failure_is_latest (cfg : Cfg) (ops : List Op) (c k kd : Nat) (pre post : List REv)
+    (hlog : (run cfg ops).sh.log = pre ++ REv.done c k (.err kd) :: post) (hkd : cfg.reconn kd = true)
+    (hpost : ∀ x ∈ post, changesPub cfg x = false) : (run cfg ops).sh.conn = .reconnecting := by
+  rw [published_state_is_function_of_the_log, hlog, pubOf_after cfg pre post _ hpost]
+  simp [pubStep, hkd]
+
+/-- … and `Disconnected` after a give-up (`MaxAttemptsExceeded`, `ConnectionFailed`) until the next line that changes the
+state: the state stays down for good if nobody tries again (as the code has it; see the notes). -/
+theorem disconnected_after_giving_up (cfg : Cfg) (ops : List Op) (c : Nat) (r : RRes) (pre post : List REv)
+    (hlog : (run cfg ops).sh.log = pre ++ REv.result c r :: post)
+    (hr : (∃ n kd k, r = .maxAttempts n kd k) ∨ ∃ kd k, r = .connFailed kd k)
+    (hpost : ∀ x ∈ post, changesPub cfg x = false) : (run cfg ops).sh.conn = .disconnected := by
+  rw [published_state_is_function_of_the_log, hlog, pubOf_after cfg pre post _ hpost]
+  rcases hr with ⟨n, kd, k, rfl⟩ | ⟨kd, k, rfl⟩ <;> rfl
+
+/-- the two-valued reading used above (`linkUp`) is the three-valued one -/
+theorem pubOf_connected_iff_linkUp (cfg : Cfg) (ops : List Op) :
+    pubOf cfg (run cfg ops).sh.log = .connected ↔ linkUp cfg (run cfg ops).sh.log = true := by
+  rw [← published_state_is_function_of_the_log]; exact state_is_function_of_history cfg ops
+
+/-- everything above in one statement: **every reachable timestamped log is well formed** — every line is justified by the
+lines before it (`EvOK`: the retry / completion / result / probe clauses above) and instants never decrease -/
+theorem log_wellformed (cfg : Cfg) (ops : List Op) : WFT cfg (run cfg ops).sh.tlog :=
+  (logInv_reachable cfg ops).g.wft
+
+/-- **… for every layer value**: the log of the instance of layer value `j` in any multi-layer history is well formed, and
+that layer value's published state is `pubOf` of ITS OWN log. The log-level theorems above are read off `WFT` alone
+(`retry_structure`, `end_follows_its_call`, `final_line`, `after_success` in `TR.Lemmas.ReconnectTrace`), so each of them
+holds for each layer value; two of them are spelled out below. -/
+theorem log_wellformed_per_layer_value (cfg : Cfg) (ops : List (Nat × Op)) (j : Nat) :
+    WFT cfg (instOf (runM cfg ops) j).sh.tlog ∧
+    (instOf (runM cfg ops) j).sh.conn = pubOf cfg (instOf (runM cfg ops) j).sh.log ∧
+    (instOf (runM cfg ops) j).sh.tlog.map Prod.snd = (instOf (runM cfg ops) j).sh.log :=
+  ⟨(logInv_multi cfg ops j).g.wft, (logInv_multi cfg ops j).pub, (logInv_multi cfg ops j).same⟩
+
+theorem retry_follows_accepted_failure_per_layer_value (cfg : Cfg) (ops : List (Nat × Op)) (j c k t : Nat)
+    (pre post : List (Nat × REv)) (hlog : (instOf (runM cfg ops) j).sh.tlog = pre ++ (t, .call c k) :: post) :
+    callsInT c pre = 0 ∨
+    ∃ p1 t0 k0 mid t1 kd mid2 d,
+      pre = p1 ++ (t0, .call c k0) :: (mid ++ (t1, .done c k0 (.err kd)) :: mid2) ∧
+      (∀ y ∈ mid, isMine c y = false) ∧ (∀ y ∈ mid2, isMine c y = false) ∧
+      cfg.reconn kd = true ∧ cfg.retry = true ∧ exceeded cfg (callsInT c pre) = false ∧
+      cfg.policy.allowed (callsInT c pre) d = true ∧ t0 ≤ t1 ∧ t1 + ceilMs d ≤ t :=
+  retry_structure (logInv_multi cfg ops j).g.wft hlog
+
+theorem probe_reports_the_state_of_the_log_per_layer_value (cfg : Cfg) (ops : List (Nat × Op)) (j t : Nat) (x : Conn)
+    (pre post : List (Nat × REv)) (hlog : (instOf (runM cfg ops) j).sh.tlog = pre ++ (t, .probe x) :: post) :
+    x = pubOf cfg (pre.map Prod.snd) :=
+  ((logInv_multi cfg ops j).g.wft pre t _ post hlog).2
+
+/-- **Progress** (not a clause of the property; the audit asked for it): with unlimited attempts, `retry_on_reconnect`, a
+zero delay and an inner service that is always ready, a request whose inner calls fail `n` times with an error the
+predicate accepts and then succeed RETURNS that success — `ok` with the serial of call `n + 1`, after exactly `n + 1` inner
+calls, within its first poll — and the published state reads `Connected`. For every `n`: the model's loop fuel is never
+what stops a request (`poll_runs_to_pending_or_done`), and nothing else gives up. -/
+theorem unlimited_makes_progress (cfg : Cfg) (hmax : cfg.maxAttempts = none) (hretry : cfg.retry = true)
+    (hpol : cfg.policy = .fixed 0) (kd c n : Nat) (hk : cfg.reconn kd = true) :
+    ∃ st, lookup (run cfg [.arrive c (List.replicate n ⟨0, .err kd⟩ ++ [⟨0, .ok⟩]), .poll c []]).callers c = some st ∧
+      st.result = some (.ok n) ∧ st.calls.length = n + 1 ∧
+      (run cfg [.arrive c (List.replicate n ⟨0, .err kd⟩ ++ [⟨0, .ok⟩]), .poll c []]).sh.conn = .connected :=
+  progress_run cfg hmax hretry hpol kd c n hk
+
 /-! ## non-vacuity -/
 
 private def cfgA : Cfg :=
@@ -582,5 +823,151 @@ example :
 /-- A sub-millisecond delay is reported as it is (125 µs · 2 = 250 µs, no floor) and waited to the next timer tick. -/
 example : delayProbe { cfgA with policy := .exp 125000 400000 } 1 [] = "250000"
     ∧ delayProbe { cfgA with policy := .exp 0 5000000000 } 3 [] = "0" ∧ ceilMs 250000 = 1 ∧ ceilMs 0 = 0 := by decide
+
+/-! ### non-vacuity of the log-level theorems, and of the older theorems that had no instance yet -/
+
+private def opsA : List Op :=
+  [.arrive 1 [⟨0, .err 1⟩, ⟨2, .err 1⟩, ⟨5, .ok⟩], .poll 1 [], .adv 10, .poll 1 [], .adv 2, .poll 1 [],
+   .adv 9, .poll 1 [], .adv 1, .poll 1 [], .adv 5, .poll 1 []]
+
+/-- The timestamped log of the first example (two reconnectable failures, then a success; fixed 10 ms): the retries are
+the `inner_call` lines at 10 and 22, each preceded by the `inner_done … err1` line of the previous call (at 0 and 12) and
+exactly 10 ms after it — the schedule `opsA` polls the request whenever its back-off ends (`PolledWhenWoken`), the inner
+service has no recovery time. `calls_bounded_log`: 3 = max_attempts + 1 `inner_call` lines; `result_line_wraps_last_completion`,
+`first_success_ends_the_request`: `inner_done 1 2 ok` is followed by `result 1 ok:2` at the same instant and nothing else. -/
+example :
+    (run cfgA opsA).sh.tlog =
+      [(0, .call 1 0), (0, .done 1 0 (.err 1)), (10, .call 1 1), (12, .done 1 1 (.err 1)), (22, .call 1 2),
+       (27, .done 1 2 .ok), (27, .result 1 (.ok 2))]
+      ∧ PolledWhenWoken cfgA 1 opsA ∧ (∀ op ∈ opsA, noRecovery op = true)
+      ∧ lastMine 1 [(0, .call 1 0), (0, .done 1 0 (.err 1)), (10, .call 1 1), (12, REv.done 1 1 (.err 1))]
+          = some (12, .done 1 1 (.err 1))
+      ∧ callsInT 1 (run cfgA opsA).sh.tlog = 3 ∧ cfgA.policy.deterministic = true ∧ cfgA.policy.delayOf 2 = 10000000 := by
+  decide
+
+/-- The discipline is needed for "exactly": a schedule that advances the clock 11 ms over a 10 ms back-off does not meet
+it, and the retry line stands at 11 (the lower bound `retry_follows_accepted_failure` still holds: 0 + 10 ≤ 11). With a
+recovery time of 15 ms of the inner service (`noRecovery` fails) the retry stands at 15 although the request is polled
+at 10. -/
+example :
+    let ops := [Op.arrive 1 [⟨0, .err 1⟩, ⟨0, .ok⟩], .poll 1 [], .adv 11, .poll 1 []]
+    let ops' := [Op.inner [] 15, .arrive 1 [⟨0, .err 1⟩, ⟨0, .ok⟩], .poll 1 [], .adv 10, .poll 1 [], .adv 5, .poll 1 []]
+    ¬ PolledWhenWoken cfgA 1 ops
+      ∧ (run cfgA ops).sh.tlog = [(0, .call 1 0), (0, .done 1 0 (.err 1)), (11, .call 1 1), (11, .done 1 1 .ok),
+                                   (11, .result 1 (.ok 1))]
+      ∧ PolledWhenWoken cfgA 1 ops' ∧ ¬ (∀ op ∈ ops', noRecovery op = true)
+      ∧ (run cfgA ops').sh.tlog = [(0, .call 1 0), (0, .done 1 0 (.err 1)), (15, .call 1 1), (15, .done 1 1 .ok),
+                                    (15, .result 1 (.ok 1))] := by
+  decide
+
+/-- The published state at four probe points, all three values: `Disconnected` before anything happened; `Connected`
+after request 1 succeeded; `Reconnecting` while request 2 — issued while the state read Connected — backs off after an
+accepted failure (this is the probe that a state left at `Connected` during an outage contradicts:
+`probe_reports_the_state_of_the_log` with `pre` = the first seven lines); `Disconnected` after request 2 gave up
+(`MaxAttemptsExceeded` after 3 calls). -/
+example :
+    let ops := [Op.probe, .arrive 1 [⟨0, .ok⟩], .poll 1 [], .probe, .arrive 2 [⟨0, .err 1⟩, ⟨0, .err 1⟩, ⟨0, .err 1⟩],
+                .poll 2 [], .probe, .adv 10, .poll 2 [], .adv 10, .poll 2 [], .probe]
+    (run cfgA ops).sh.tlog =
+      [(0, .probe .disconnected), (0, .call 1 0), (0, .done 1 0 .ok), (0, .result 1 (.ok 0)), (0, .probe .connected),
+       (0, .call 2 1), (0, .done 2 1 (.err 1)), (0, .probe .reconnecting), (10, .call 2 2), (10, .done 2 2 (.err 1)),
+       (20, .call 2 3), (20, .done 2 3 (.err 1)), (20, .result 2 (.maxAttempts 3 1 3)), (20, .probe .disconnected)]
+      ∧ pubOf cfgA [.probe .disconnected, .call 1 0, .done 1 0 .ok, .result 1 (.ok 0), .probe .connected, .call 2 1,
+                    .done 2 1 (.err 1)] = .reconnecting
+      ∧ pubOf cfgA [] = .disconnected := by
+  decide
+
+/-- `retry_on_reconnect = false` and policy `None` over the log: one `inner_call` line each
+(`single_call_without_retry_log`); the `no_retry` result comes 10 ms after the `inner_done` line (the back-off was waited),
+the `conn_failed` result at the instant of the failure; the default configuration retries after 100 ms
+(`default_config_never_gives_up`: the result is a success). -/
+example :
+    (run { cfgA with retry := false } [.arrive 1 [⟨0, .err 1⟩, ⟨0, .ok⟩], .poll 1 [], .adv 10, .poll 1 []]).sh.tlog
+        = [(0, .call 1 0), (0, .done 1 0 (.err 1)), (10, .result 1 (.noRetry 1 0))]
+      ∧ (run { cfgA with policy := .none } [.arrive 1 [⟨0, .err 1⟩, ⟨0, .ok⟩], .poll 1 []]).sh.tlog
+        = [(0, .call 1 0), (0, .done 1 0 (.err 1)), (0, .result 1 (.connFailed 1 0))]
+      ∧ (run defaultCfg [.arrive 1 [⟨0, .err 1⟩, ⟨0, .ok⟩], .poll 1 [], .adv 200, .poll 1 []]).sh.tlog
+        = [(0, .call 1 0), (0, .done 1 0 (.err 1)), (200, .call 1 1), (200, .done 1 1 .ok), (200, .result 1 (.ok 1))]
+      ∧ (lookup (run defaultCfg [.arrive 1 [⟨0, .err 1⟩, ⟨0, .ok⟩], .poll 1 [], .adv 200, .poll 1 []]).callers 1).map
+          (·.result) = some (some (.ok 1)) := by
+  decide
+
+/-- A cancelled request: `inner_drop 1 0` follows `inner_call 1 0` (`completion_follows_its_call`) and nothing of request 1
+follows it (`nothing_follows_the_result`); a refused request has the single line `result 2 notready`. -/
+example :
+    (run cfgA [.arrive 1 [⟨5, .ok⟩], .poll 1 [], .drop 1, .inner [] 7, .arrive 3 [⟨0, .ok⟩], .arrive 2 [⟨0, .ok⟩],
+               .adv 5, .poll 1 []]).sh.tlog
+      = [(0, .call 1 0), (0, .dropped 1 0), (0, .call 3 1), (0, .result 2 .notReady)] := by
+  decide
+
+/-- hypotheses of `connected_after_any_success` and `not_connected_after_failure_until_success`: explicit splits of the
+log of the interleaving example (request 3 fails and gives up while request 2 is in flight, then request 2 succeeds) -/
+example :
+    let ops := [Op.arrive 1 [⟨0, .ok⟩], .poll 1 [], .arrive 2 [⟨5, .ok⟩], .poll 2 [], .arrive 3 [⟨0, .err 1⟩], .poll 3 []]
+    let cfg := { cfgA with maxAttempts := some 0 }
+    (run cfg ops).sh.log
+        = [.call 1 0, .done 1 0 .ok, .result 1 (.ok 0), .call 2 1, .call 3 2] ++ REv.done 3 2 (.err 1) ::
+          [.result 3 (.maxAttempts 1 1 2)]
+      ∧ cfg.reconn 1 = true ∧ (∀ x ∈ [REv.result 3 (.maxAttempts 1 1 2)], isSuccess x = false)
+      ∧ (run cfg (ops ++ [.adv 5, .poll 2 []])).sh.log
+        = [.call 1 0, .done 1 0 .ok, .result 1 (.ok 0), .call 2 1, .call 3 2, .done 3 2 (.err 1),
+           .result 3 (.maxAttempts 1 1 2), .done 2 1 .ok] ++ REv.result 2 (.ok 1) :: []
+      ∧ (∀ c' k' kd, REv.done c' k' (.err kd) ∈ ([] : List REv) → cfg.reconn kd = false) := by
+  refine ⟨by decide, by decide, by decide, by decide, ?_⟩
+  intro c' k' kd h
+  simp at h
+
+/-- hypotheses of `solo_not_connected_while_handling`, `state_connected_after_success`, `expected_reading`,
+`rejected_error_finishes_whatever_its_causes` and `readiness_error_leaves_state` (the transition that returns the
+readiness error in the readiness example above: request 1 in `Readying` at 20, the third readiness answer is an error) -/
+example :
+    (∀ op ∈ [Op.arrive 1 [⟨0, .err 1⟩, ⟨0, .ok⟩], .poll 1 [], .adv 9, .poll 1 [], .probe], Solo 1 op)
+      ∧ (let s := run cfgA [.arrive 1 [⟨0, .ok⟩]]
+         REv.result 1 (.ok 0) ∈ (stepS cfgA s (.poll 1 [])).sh.log.drop s.sh.log.length)
+      ∧ expected cfgA { k := 2, t := 22, step := ⟨5, .ok⟩, pre := none } 3 = some (.ok 2)
+      ∧ expected cfgA { k := 2, t := 0, step := ⟨0, .err 1⟩, pre := none } 3 = some (.maxAttempts 3 1 2)
+      ∧ cfgA.reconn 2 = false
+      ∧ (let s := run cfgA [.inner [.ready, .ready, .error] 5, .arrive 1 [⟨0, .err 1⟩, ⟨0, .err 1⟩, ⟨0, .ok⟩], .poll 1 [],
+                            .adv 10, .poll 1 [], .adv 10]
+         let st := (lookup s.callers 1).getD default
+         st.result = none ∧ st.phase = .sleeping 20
+           ∧ ((transSleeping cfgA 1 st s.sh 20).bind fun p => transReadying 1 p.1 p.2 20).map (fun p => p.1.result)
+               = some (some .readyErr)) := by
+  decide
+
+/-- two layer values, each with its own log: layer value 1's retry at 10 follows ITS failure at 0; layer value 0's probe
+reads `Connected` from its own success while layer value 1 reads `Reconnecting` at the same instant -/
+example :
+    let m := runM cfgA [(0, .arrive 1 [⟨0, .ok⟩]), (0, .poll 1 []), (1, .arrive 2 [⟨0, .err 1⟩, ⟨0, .ok⟩]), (1, .poll 2 []),
+                        (0, .probe), (1, .probe), (0, .adv 10), (1, .poll 2 [])]
+    (instOf m 0).sh.tlog = [(0, .call 1 0), (0, .done 1 0 .ok), (0, .result 1 (.ok 0)), (0, .probe .connected)]
+      ∧ (instOf m 1).sh.tlog = [(0, .call 2 1), (0, .done 2 1 (.err 1)), (0, .probe .reconnecting), (10, .call 2 2),
+                                 (10, .done 2 2 .ok), (10, .result 2 (.ok 2))] := by
+  decide
+
+/-- hypotheses of `reconnecting_while_failure_is_latest` / `disconnected_after_giving_up`: request 2 backs off while
+request 3 (rejected error) and request 4 (still in flight) come and go — the state stays `Reconnecting`; after request 2
+gave up it is `Disconnected`. -/
+example :
+    let ops := [Op.arrive 1 [⟨0, .ok⟩], .poll 1 [], .arrive 2 [⟨0, .err 1⟩, ⟨0, .err 1⟩, ⟨0, .err 1⟩], .poll 2 [],
+                .arrive 3 [⟨0, .err 2⟩], .poll 3 [], .arrive 4 [⟨9, .ok⟩], .poll 4 [], .probe]
+    (run cfgA ops).sh.log
+        = [.call 1 0, .done 1 0 .ok, .result 1 (.ok 0), .call 2 1] ++ REv.done 2 1 (.err 1) ::
+          [.call 3 2, .done 3 2 (.err 2), .result 3 (.service 2 2), .call 4 3, .probe .reconnecting]
+      ∧ (∀ x ∈ [REv.call 3 2, .done 3 2 (.err 2), .result 3 (.service 2 2), .call 4 3, .probe .reconnecting],
+            changesPub cfgA x = false)
+      ∧ (run cfgA (ops ++ [.adv 10, .poll 2 [], .adv 10, .poll 2 [], .probe])).sh.log
+        = [.call 1 0, .done 1 0 .ok, .result 1 (.ok 0), .call 2 1, .done 2 1 (.err 1), .call 3 2, .done 3 2 (.err 2),
+           .result 3 (.service 2 2), .call 4 3, .probe .reconnecting, .call 2 4, .done 2 4 (.err 1), .call 2 5,
+           .done 2 5 (.err 1)] ++ REv.result 2 (.maxAttempts 3 1 5) :: [.probe .disconnected] := by
+  decide
+
+/-- `unlimited_makes_progress`, `n = 4`: five `inner_call` lines at the same instant, then the success -/
+example :
+    let cfg := { cfgA with maxAttempts := none, policy := .fixed 0 }
+    cfg.maxAttempts = none ∧ cfg.retry = true ∧ cfg.reconn 1 = true
+      ∧ callsInT 7 (run cfg [.arrive 7 (List.replicate 4 ⟨0, .err 1⟩ ++ [⟨0, .ok⟩]), .poll 7 []]).sh.tlog = 5
+      ∧ (0, REv.result 7 (.ok 4)) ∈ (run cfg [.arrive 7 (List.replicate 4 ⟨0, .err 1⟩ ++ [⟨0, .ok⟩]), .poll 7 []]).sh.tlog := by
+  decide
 
 end TR.Props.C16
